@@ -91,6 +91,12 @@ def main():
     st = Stats("C11", "ptr32" if ptr32 else "checked")
     procs = []
     skipped_ptr = 0
+    abs_mons = []
+    if ptr32:
+        import cmpm
+        abs_mons = [conv.Mon("C04", "ptr32"), cmpm.Mon("C03", "ptr32")]
+    max_pairs = int(opts.get("max_pairs", 0))
+    truncated = False
     import tempfile
     errf = tempfile.TemporaryFile(mode="w+") if ptr32 else None
 
@@ -105,12 +111,12 @@ def main():
         if gen:
             g = subprocess.Popen(gen, stdout=subprocess.PIPE)
             p = subprocess.Popen(cmd, stdin=g.stdout, stdout=subprocess.PIPE, stderr=errf,
-                                 universal_newlines=True, bufsize=1 << 20, cwd=cwd, env=env)
+                                 universal_newlines=True, bufsize=1 << 20, cwd=cwd, env=env, start_new_session=ptr32)
             g.stdout.close()
             procs.append(g)
         else:
             p = subprocess.Popen(cmd, stdin=subprocess.DEVNULL, stdout=subprocess.PIPE, stderr=errf,
-                                 universal_newlines=True, bufsize=1 << 20, cwd=cwd, env=env)
+                                 universal_newlines=True, bufsize=1 << 20, cwd=cwd, env=env, start_new_session=ptr32)
         procs.append(p)
         return p
 
@@ -124,6 +130,11 @@ def main():
         lc = pc.stdout.readline()
         lr = pr.stdout.readline()
         if not lc and not lr:
+            break
+        if max_pairs and pairs >= max_pairs:
+            # budgeted prefix of the two streams (the interpreter runs ~10-40 events/s and, on a 32-bit target, runs out
+            # of fresh addresses after some 10^4 events): stop both sides here; nothing is concluded about the rest
+            truncated = True
             break
         if not lc or not lr:
             errors += 1
@@ -150,8 +161,24 @@ def main():
         sc = tc.index("=>")
         sr = tr.index("=>")
         if ptr32 and tc[0] == "fi" and tr[0] == "fi" and tc[1:3] == tr[1:3] and tc[3] != tr[3]:
-            # integer operand type is usize / isize: its width (token 3) follows the pointer width by design
+            # integer operand type is usize / isize: its width (token 3) follows the pointer width by design, so the two
+            # lines cannot be compared; the 32-bit line is judged ABSOLUTELY by the exact oracles of C04 / C03 instead
+            # (the driver logs the generated 64-bit operand; the library received its low 32 bits)
             skipped_ptr += 1
+            m = int(tc[3], 16)
+            tj = list(tc)
+            tj[5] = "%x" % (int(tc[5], 16) & ((1 << m) - 1))
+            lj = " ".join(tj)
+            for mon in abs_mons:
+                before = {k: v["count"] for k, v in mon.st.violations.items()}
+                mon.event(lj, tj)
+                for sig, v in mon.st.violations.items():
+                    if v["count"] > before.get(sig, 0):
+                        st.violation("C11:ptr32:%s" % sig, lc, "32-bit target, pointer-width integer operand: " + v["detail"])
+            st.evaluations += 1
+            st.checks += len(tc) - sc - 1
+            st.layouts.add(tc[1])
+            st.ops["fi"] = st.ops.get("fi", 0) + 1
             continue
         if tc[:sc] != tr[:sr]:
             errors += 1
@@ -223,20 +250,32 @@ def main():
                 st.samples.append("checked: %s || release: %s" % (lc.strip()[:200], " ".join(tr[sr:])[:160]))
     if ptr32:
         # the interpreter must have finished cleanly: a Miri abort (UB report, unsupported operation) is not a verdict
+        if truncated:
+            # cargo -> cargo-miri -> miri: the whole process group has to go, or the interpreter keeps running orphaned
+            import signal
+            try:
+                os.killpg(pc.pid, signal.SIGKILL)
+            except OSError:
+                pass
         rc = pc.wait()
-        if rc != 0:
+        if rc != 0 and not truncated:
             errors += 1
             errf.seek(0)
             sys.stderr.write("32-bit interpreter run exited %s: %s\n" % (rc, errf.read()[-1500:]))
     for p in procs:
         try:
-            p.kill()
+            if ptr32:
+                import signal
+                os.killpg(p.pid, signal.SIGKILL)
+            else:
+                p.kill()
         except Exception:
             pass
     if ptr32:
         st.extra["ptr32_aligned_pairs"] = pairs
         st.extra["ptr32_identical_pairs"] = identical
-        st.extra["ptr32_usize_isize_pairs_skipped"] = skipped_ptr
+        st.extra["ptr32_usize_isize_events_judged_by_exact_oracle"] = skipped_ptr
+        st.extra["ptr32_streams_cut_at_budget"] = int(truncated)
         res = st.result()
         res["profile"] = "ptr32(miri-i686)-vs-native"
         res["monitor_errors"] = errors
